@@ -99,7 +99,7 @@ def check_duals(ix, rep, hs, rule='R-EXPL-MIRROR'):
                     continue
                 except _iv.Unknown:
                     pass
-        na = copy.deepcopy(fa.node)
+        na = norm.inline_bool_temps(copy.deepcopy(fa.node), paths=True)      # `v = op_signal[i]; if v >= 0` is a sign test on the signal
         na = FlipSign().visit(na)
         da, ta, _ = norm.normal_form(na)
         db, tb, _ = norm.normal_form(fb.node)
@@ -239,6 +239,11 @@ def check_all_intervals(ix, rep, hs, rule='R-EXPL-ALL'):
                 for nm in ast.walk(x.iter):
                     if isinstance(nm, ast.Name) and nm.id in ('begin', 'end'):
                         used.add(nm.id)
+            # the interval returned as a list display: `return [[begin, len(op_signal) - 1]]`
+            if isinstance(x, ast.Return) and isinstance(x.value, ast.List):
+                for nm in ast.walk(x.value):
+                    if isinstance(nm, ast.Name) and nm.id in ('begin', 'end'):
+                        used.add(nm.id)
             # the scan written as a while loop: `i = begin` starts it, `i <= end` / `i < end + 1` stops it
             if isinstance(x, ast.Assign) and isinstance(x.value, ast.Name) and x.value.id in ('begin', 'end') and any(isinstance(w_, ast.While) for w_ in ast.walk(g.node)):
                 used.add(x.value.id)
@@ -248,8 +253,8 @@ def check_all_intervals(ix, rep, hs, rule='R-EXPL-ALL'):
                         used.add(nm.id)
         if (used == {'begin'} and first) or (used == {'end'} and last):
             rep.ok(rule, g.module.rel, g.qual, slot, 'uses only `%s` of the %s requested interval, which bounds all of them' % (used.pop(), 'first' if first else 'last'), g.node.lineno)
-        elif not used and any(isinstance(w_, ast.While) for w_ in ast.walk(g.node)):
-            rep.error('%s (%s): which of the requested intervals the helper honours is not read off a while-loop scan' % (g.where, g.qual))
+        elif not used:
+            rep.error('%s (%s): which end of the picked interval the helper uses is not read (no `begin` / `end` in what it appends, returns or scans)' % (g.where, g.qual))
         else:
             rep.fail(rule, g.module.rel, g.qual, slot, 'only interval [%s] of the requested intervals is honoured (uses %s): when the parent asks for several disjoint intervals the '
                      'others are dropped and the reported samples are no sufficient cause' % (which, sorted(used)), idx[0].lineno)
